@@ -1,20 +1,139 @@
 import Q1t.Model.Latex
 import Q1t.Spec.QcGrid
+import Q1t.Gen.LatexTemplates
 import Q1t.Proofs.LatexBasic
+import Q1t.Proofs.LatexShape
+import Q1t.Proofs.LatexInv
 /-!
 # C13 — the LaTeX (qcircuit) export is a well-formed grid depicting the circuit; undrawable operations are errors
 
 Property theorems only.  Statements are about the executable model `Q1t.Latex` of
 `src/export/latex.rs`, `Circuit::latex` and every gate's `impl Latex` (tied to the code by the
-correspondence run of `tools/check.py C13`).  Proofs are in `Q1t/Proofs/Latex*.lean`.
+correspondence run of `tools/check.py C13`), and about the grid of symbols `Q1t.Latex.grid` that the
+model's `code` prints (that the exported TEXT reads back as this grid is checked at run time by the
+reader `Spec.QcGrid.readDoc` on the implementation's output, not proved).
+Proofs are in `Q1t/Proofs/Latex{Basic,Shape,Conn,Inv}.lean`.
 -/
 namespace Q1t.Props.C13
-open Q1t.Latex Q1t.Spec.QcGrid
+open Q1t.Latex Q1t.Spec.QcGrid Q1t.Proofs.Latex
 
-/-- An operation that cannot be drawn (peek, peek_all) is never exported: for every circuit, of any
-size, containing one, `Circuit::latex` does not return text. -/
+/-- **grid_rectangular** — for EVERY circuit (any register size, any gate terms, any operand lists,
+well-formed or not): if the export does not fail, the printed grid has exactly one row per quantum
+and per classical wire, and all rows have the same number of cells (one per matrix column, plus the
+closing wire column when the last column is in use). No index panic can occur while printing it. -/
+theorem grid_rectangular (c : Circ) (s : St) (h : exportSt c = .ok s) :
+    ∃ g, grid s = some g ∧ g.length = c.nq + c.nc ∧ rectangular g = true ∧
+      ∀ row ∈ g, row.length = s.rcols.length + (if s.inUse.contains true then 1 else 0) := by
+  obtain ⟨hq, hc, hs⟩ := exportSt_shape h
+  obtain ⟨g, hg, hl, hrows⟩ := grid_shape s hs
+  exact ⟨g, hg, by rw [hl, St.total, hq, hc], rectangular_of_lengths g _ hrows, hrows⟩
+
+/-- The same shape holds after ANY sequence of the emitters on any well-shaped state: it is an
+invariant of the state machine, not only of `Circuit::latex`. -/
+theorem shape_invariant (nq : Nat) (ops : List Op) (s s' : St) (hs : Shape s)
+    (h : opsLatex nq ops s = .ok s') : Shape s' ∧ s'.nq = s.nq ∧ s'.nc = s.nc :=
+  ⟨(keeps_opsLatex h).shape hs, (keeps_opsLatex h).nq, (keeps_opsLatex h).nc⟩
+
+/-
+FULL STATEMENT (false on the pinned code, see the negative witnesses below):
+  ∀ c s g, exportSt c = .ok s → grid s = some g → every line of every cell of g ends inside g on a partner symbol.
+Proved for all circuits, of any size and length, whose operations satisfy the decidable predicate
+`opOk`: gates that are 1-qubit boxes (H Y S S† T T† V V† RX RY RZ U1 U2 U3 …), X, Z, Swap, I, any
+controlled nesting C<…> of the former four with every control outside the span of its targets and
+distinct operands (CX … CCZ), and Kron / Composite / Loop of all these to any depth; measure,
+measure_all, reset, barrier, peek.  Missing: conditional gates and reset_all (their emitters are
+covered by the same `Wrote` calculus; not finished), multi-qubit block gates (trait default drawing),
+gates under a control that are Kron / Composite / Loop / I (genuinely wrong, see known findings).
+-/
+/-- **connectors_in_grid_on_partner** (partial): in the printed grid every control line, `\qwx`
+wire and measurement line ends inside the grid on a partner symbol. -/
+theorem connectors_in_grid_on_partner_partial (c : Circ) (s : St) (g : Grid)
+    (hop : ∀ op ∈ c.ops, opOk op = true) (h : exportSt c = .ok s) (hg : grid s = some g) :
+    ∀ (col r : Nat) (y : Sym), (g.col col)[r]? = some y → linesOk (g.col col) r y = true :=
+  grid_lines_ok (exportSt_inv hop h).shape (exportSt_inv hop h).ok hg
+
+/-- The invariant behind it, for any operation history: outside a range every matrix column is
+connected, and a field that is not in use is empty (so later writes never overwrite a symbol). -/
+theorem connector_invariant (nq : Nat) (ops : List Op) (s s' : St) (hi : Inv s) (he : s.expand = true)
+    (hop : ∀ op ∈ ops, opOk op = true) (h : opsLatex nq ops s = .ok s') : Inv s' :=
+  inv_opsLatex hi he hop h
+
+/-- **undrawable_is_error** — an operation that cannot be drawn (peek, peek_all) is never exported:
+for every circuit, of any size, containing one, `Circuit::latex` does not return text … -/
 theorem undrawable_is_error (c : Circ) (h : ∃ op ∈ c.ops, op.isPeek = true) :
     ∀ t, circuitLatex c ≠ .ok t :=
   Q1t.Proofs.Latex.undrawable_is_error c h
+
+/-- … and when everything before the first peek can be drawn, the result is the `NotImplemented` error. -/
+theorem undrawable_error_value (nq : Nat) (pre : List Op) (op : Op) (post : List Op) (s s1 : St)
+    (hpre : opsLatex nq pre s = .ok s1) (hp : op.isPeek = true) :
+    opsLatex nq (pre ++ op :: post) s = .err .notImplemented :=
+  peek_after_ok_prefix nq pre op post s s1 hpre hp
+
+/-! ## Tie to the source: templates and the gate table are re-extracted on every run -/
+
+/-- The string literals / format templates of `src/export/latex.rs` are the ones the model's
+`symText`, `braceText`, `rowLabel`, `rowText`, `code` implement (in source order). If the source
+changes a template this fails and the model must be revisited. -/
+theorem emitter_templates_as_modelled : Q1t.Gen.latexTemplates =
+    ["\\meterB{{}}", "\\meter", "\\cw \\cwx[{}]", "\\push{~\\ket{0}~} \\ar @{|-{}} [0,-1]", "\\cctrlo", "\\cctrl",
+     "{}{{}}", "\\gate{{}}", "\\multigate{{}}{{}}", "\\ghost{{}}", "\\gate{{}} \\qwx[{}]",
+     "\\multigate{{}}{{}} \\qwx[{}]", "\\ghost{{}}", "\\cds{{}}{{}}", "\\qw \\barrier{{}}",
+     "\\Qcircuit @C=1em @R=.7em {\n", "    & ", "& ",
+     "\\mbox{} \\POS\"{},{}\".\"{},{}\".\"{},{}\".\"{},{}\"!C*+<.7em>\\frm{^\\}},+U*++!D{{}\\times}",
+     "\\\\\n", "    ", "& ", "\\\\\n", "    \\lstick{\\ket{0}}", "    \\lstick{0}", "    ", " & ", "\\qw", "\\cw",
+     " & ", "\\qw", "\\cw", " \\\\\n", "}\n"] ∧
+    Q1t.Gen.latexCtrlTemplates = ["\\ctrl{{}}", "\\ctrl{{}}"] := by decide
+
+/-- Instances of the model's cell text (the templates with their holes filled). -/
+example : symText (.ctrl (-2)) = "\\ctrl{-2}" ∧
+    symText (.multigate 2 "G" (some (-3))) = "\\multigate{2}{G} \\qwx[-3]" ∧
+    symText (.cwx (-3)) = "\\cw \\cwx[-3]" ∧ symText (.cctrlo (-1)) = "\\cctrlo{-1}" ∧
+    symText (.barrier 2) = "\\qw \\barrier{2}" ∧ symText (.cds 1 "\\cdots") = "\\cds{1}{\\cdots}" ∧
+    symText (.meter (some "X")) = "\\meterB{X}" ∧ symText (.gate "H" (some 2)) = "\\gate{H} \\qwx[2]" := by
+  decide
+
+/-! ## Non-vacuity -/
+
+def cxGate : Gate := .c .x
+def ccxGate : Gate := .c (.c .x)
+
+/-- A circuit inside the proved class with controls, a swap, a composite, a loop, measurements and a barrier. -/
+def sample : Circ := ⟨3, 2, [.gate (.box "H" 1) [0], .gate ccxGate [0, 2, 1], .gate .swap [2, 0],
+  .gate (.comp "c" 2 (.cons (.box "H" 1) [1] (.cons cxGate [0, 1] .nil))) [1, 2],
+  .gate (.loop 3 (.comp "b" 1 (.cons .z [0] .nil))) [2], .measure 1 0 .X, .barrier [0, 1], .reset 2, .measureAll [1, 0, 1] .Z]⟩
+
+example : (∀ op ∈ sample.ops, opOk op = true) ∧ (circuitLatex sample matches .ok _) := by decide
+
+/-! ## Negative witnesses: the full property fails on the pinned code -/
+
+/-- D11: a control between its targets is a panic, not an error (and not a drawing). -/
+theorem neg_ctrl_between_targets_panics : circuitLatex ⟨3, 0, [.gate ccxGate [1, 0, 2]]⟩ = .panic := by decide
+
+/-- D11: `reset_all` on a circuit without qubits panics. -/
+theorem neg_resetall_zero_qubits_panics : circuitLatex ⟨0, 0, [.resetAll]⟩ = .panic := by decide
+
+/-- D13: `if (b == 1) { H; X }` is exported exactly like `if (b == 1) X`: the H is lost. -/
+theorem neg_conditional_composite_overwrites :
+    circuitLatex ⟨1, 1, [.cond [0] 1 (.comp "c" 1 (.cons (.box "H" 1) [0] (.cons .x [0] .nil))) [0]]⟩ =
+    circuitLatex ⟨1, 1, [.cond [0] 1 .x [0]]⟩ := by decide
+
+/-- Any Loop (≥ 3 iterations) holding another one panics while the header is printed. -/
+theorem neg_nested_loop_panics :
+    circuitLatex ⟨1, 0, [.gate (.loop 3 (.comp "o" 1 (.cons (.box "H" 1) [0]
+      (.cons (.loop 3 (.comp "i" 1 (.cons .x [0] .nil))) [0] .nil)))) [0]]⟩ = .panic := by decide
+
+/-- A gate after a barrier is drawn INTO the barrier's column, under its dashed line: the barrier
+symbol `\barrier{1}` in row 0 spans row 1, which holds `\gate{H}`. -/
+theorem neg_barrier_column_reused :
+    (exportSt ⟨2, 0, [.barrier [0, 1], .gate (.box "H" 1) [1]]⟩ >>== fun s => .ok (grid s)) =
+      .ok (some [[.barrier 1, .qw], [.gate "H" none, .qw]]) ∧
+    spansClear [[.barrier 1, .qw], [.gate "H" none, .qw]] = false := by decide
+
+/-- C<Kron<X,X>>: the second target has no line to the control. -/
+theorem neg_controlled_kron_unconnected :
+    (exportSt ⟨3, 0, [.gate (.c (.kron .x .x)) [0, 1, 2]]⟩ >>== fun s => .ok (grid s)) =
+      .ok (some [[.ctrl 1, .qw], [.targ, .qw], [.targ, .qw]]) ∧
+    connectedRows [.ctrl 1, .targ, .targ] [0, 1, 2] = false := by decide
 
 end Q1t.Props.C13
